@@ -18,7 +18,7 @@ type ge8 struct{ V int32 }
 
 // graphEdgeCheck exercises the archetype graph at the moments its node list is re-allocated (128, 256 nodes), which
 // ordinary histories pass at an arbitrary point of an arbitrary operation: a world over 8 or 9 component types is
-// driven with multi-component NewEntity / Add / Remove calls through the ID-based API while a model keeps the exact
+// driven with multi-component NewEntity / Add / Remove / Exchange calls through the ID-based API while a model keeps the exact
 // set of graph nodes (every component set a walk has stepped on), of cached edges and of component sets that have an
 // archetype. Whenever the node count stands at a capacity, the next call is chosen, if there is one, such that its
 // first step creates a node and a later step follows a cached edge to a node without archetype; the component set it
@@ -84,14 +84,39 @@ func graphEdgeCheck(seed uint64) {
 		}
 		return l[:k]
 	}
-	apply := func(e ecs.Entity, cs []int, add bool) {
+	// apply removes rem and adds add (Exchange when both are given; its walk takes the removals first)
+	apply := func(e ecs.Entity, rem, add []int) {
 		m := mask[e]
-		if add {
-			u.Add(e, ids(cs)...)
-		} else {
-			u.Remove(e, ids(cs)...)
+		switch {
+		case len(rem) == 0:
+			u.Add(e, ids(add)...)
+		case len(add) == 0:
+			u.Remove(e, ids(rem)...)
+		default:
+			u.Exchange(e, ids(add), ids(rem))
 		}
-		mask[e] = walk(m, cs)
+		mask[e] = walk(m, append(append([]int{}, rem...), add...))
+	}
+	// draw splits a call of k steps on component set m into removals and additions
+	draw := func(m uint16, k int) (rem, add []int, ok bool) {
+		kr := 0
+		switch mode := next(3); {
+		case mode == 0:
+			kr = k
+		case mode == 2 && k >= 2:
+			kr = 1 + next(k-1)
+		}
+		if kr > 0 {
+			if rem = pick(m, kr, true); rem == nil {
+				return nil, nil, false
+			}
+		}
+		if k-kr > 0 {
+			if add = pick(m, k-kr, false); add == nil {
+				return nil, nil, false
+			}
+		}
+		return rem, add, true
 	}
 	create := func(cs []int) {
 		e := u.NewEntity(ids(cs)...)
@@ -137,12 +162,11 @@ func graphEdgeCheck(seed uint64) {
 	directed := func() bool {
 		for try := 0; try < 400 && len(ents) > 0; try++ {
 			e := ents[next(len(ents))]
-			add := next(2) == 0
-			k := 2 + next(2)
-			cs := pick(mask[e], k, !add)
-			if cs == nil {
+			rem, add, dok := draw(mask[e], 2+next(2))
+			if !dok {
 				continue
 			}
+			cs := append(append([]int{}, rem...), add...)
 			m := mask[e]
 			m1 := m ^ 1<<uint(cs[0])
 			if nodes[m1] {
@@ -160,7 +184,7 @@ func graphEdgeCheck(seed uint64) {
 			if !ok {
 				continue
 			}
-			apply(e, cs, add)
+			apply(e, rem, add)
 			// reach the final component set again, by a fresh entity and by a single step from a neighbour
 			var fin []int
 			for c := 0; c < nc; c++ {
@@ -202,12 +226,11 @@ func graphEdgeCheck(seed uint64) {
 			}
 		default:
 			e := ents[next(len(ents))]
-			add := next(2) == 0
-			cs := pick(mask[e], k, !add)
-			if cs == nil {
+			rem, add, dok := draw(mask[e], k)
+			if !dok {
 				continue
 			}
-			apply(e, cs, add)
+			apply(e, rem, add)
 		}
 		if step%64 == 0 {
 			check("during the history")
